@@ -117,8 +117,9 @@ CLAIMED = {
         "lambda evaluated on every spelling of the BOOL regex (FIN, complete). INT / FLOAT / STRICTFLOAT: the lambdas "
         "are int(x) / float(x) (shape), whose round trip is CPython's. NOT proved: which text the base-type regexes "
         "delimit (re's backtracking order) - a bounded battery parses every string up to length 3 (thorough: 4) over 8 "
-        "symbols as STRING literals in both quotes with further strings following, and 32 numeric / boolean literals "
-        "through INT, NUMBER, FLOAT, STRICTFLOAT, BOOL; reported separately, never counted as proved.",
+        "symbols as STRING literals in both quotes with further strings following, and the grid sign x mantissa shape "
+        "(5 integer, 6 dotted spellings) x exponent shape (none, e/E, signed/unsigned) through INT, NUMBER, FLOAT, "
+        "STRICTFLOAT plus every BOOL spelling; reported separately, never counted as proved.",
         "Back ends FST and FIN instead of the VC generator (DESIGN.md 2.6). A-REPLACE (the streaming transducer "
         "computes str.replace) is cross-checked against CPython on every run (all strings up to length 5 over the "
         "classes). If the lambda no longer has the replace shape the FST does not apply and a bounded native search "
